@@ -320,7 +320,7 @@ fn trees(depth: usize) -> Vec<RE> {
 /// separators put between all tokens of a rendering
 const RELAYOUT: [&str; 7] = ["\n", "\r", "\r\n", " // c\n", " // c\r", " //\r\n", "\t// \"c\r  "];
 
-fn tree_leg(g: &Grammar, depth: usize, max_subset_nodes: usize) -> Acc {
+fn tree_leg(g: &Grammar, depth: usize, max_subset_nodes: usize, relayout_full: bool) -> Acc {
     let ts = trees(depth);
     ts.par_chunks(32)
         .map(|chunk| {
@@ -354,7 +354,7 @@ fn tree_leg(g: &Grammar, depth: usize, max_subset_nodes: usize) -> Acc {
                     record(&mut acc, "C07", &text, "Expr::parse", compare_expr(g, &text), &C07_KINDS);
                     // the same token sequence under other layouts (line breaks of every kind and
                     // comments between all tokens): the structure is the table's, whatever the layout
-                    if mask == 0 || mask == full_mask {
+                    if mask == 0 || (relayout_full && mask == full_mask) {
                         if let Ok(toks) = crate::spec::lex::lex_all(&text) {
                             for sep in RELAYOUT {
                                 let mut relaid = String::new();
@@ -404,7 +404,8 @@ pub fn run(tier: Tier) -> i32 {
     let (depth, subset_nodes) = tier.pick((3, 6), (3, 10));
     rep.bound("tree_depth", depth);
     rep.bound("all_parenthesis_subsets_up_to_nodes", subset_nodes);
-    rep.absorb(tree_leg(&g, depth, subset_nodes));
+    rep.absorb(tree_leg(&g, depth, subset_nodes, tier == Tier::Thorough));
+    rep.bound("relayout_separators", RELAYOUT.to_vec());
     rep.states = nodes;
     rep.transitions = edges + rep.acc.get("matrix_texts") + rep.acc.get("renderings");
     rep.traces = rep.acc.get("executions");
